@@ -3,7 +3,7 @@
    depacketisers (C12's RtpSpec). *)
 From Coq Require Import Lia ZifyN ZifyNat ZifyBool.
 From Lal Require Import Common.LBytes Common.LBytesProofs Common.Res Group.GroupMsg Codec.CodecBits Codec.CodecAac
-  Codec.CodecNalFraming Codec.CodecSdp Rtp.RtpSeqArith Rtp.RtpPacker Rtp.RtpPackerProofs Rtp.RtpSpec Rtp.RtpSpecProofs
+  Codec.CodecNalFraming Codec.CodecAvcSeqHeader Codec.CodecHevcSeqHeader Codec.CodecSdp Rtp.RtpSeqArith Rtp.RtpPacker Rtp.RtpPackerProofs Rtp.RtpSpec Rtp.RtpSpecProofs
   Rtp.RtpRoundtripProofs Remux.RemuxRtmp2Ts Remux.RemuxRtmp2Rtp Remux.RemuxSpec.
 Open Scope N_scope.
 Ltac Zify.zify_post_hook ::= Z.div_mod_to_equations.
@@ -139,3 +139,106 @@ Lemma rtp_ts_within_tick ms rate : rate <> 0 ->
   let x := ms * rate / 1000 in
   1000 * x <= ms * rate /\ ms * rate < 1000 * (x + 1).
 Proof. intros Hr x. subst x. lia. Qed.
+
+(* ---- the SDP comes once, before every RTP packet ---- *)
+Definition is_rtp (o : rout) : Prop := match o with RRtp _ _ => True | RSdp _ => False end.
+
+Section Codecs2.
+  Variable b64_enc hex_enc : bytes -> bytes.
+  Variable tool : bytes.
+  Variable opus_fixed : bool.
+
+  Lemma get_audio_packer_done s : q_done (fst (get_audio_packer opus_fixed s)) = q_done s.
+  Proof.
+    unfold get_audio_packer. destruct (q_apacker s); [reflexivity|].
+    destruct (_ || _); [reflexivity|]. destruct (q_apt s =? pt_opus)%Z; [reflexivity|].
+    destruct (q_apt s =? pt_aac)%Z; [|reflexivity]. destruct (q_asc s); [|reflexivity].
+    destruct (asc_unpack _); reflexivity.
+  Qed.
+
+  Lemma get_video_packer_done s : q_done (fst (get_video_packer s)) = q_done s.
+  Proof. unfold get_video_packer. destruct (q_sps s); [|reflexivity]. destruct (q_vpacker s); reflexivity. Qed.
+
+  Lemma remux_only_rtp s m : Forall is_rtp (snd (RemuxRtmp2Rtp.remux opus_fixed s m)) /\ q_done (fst (RemuxRtmp2Rtp.remux opus_fixed s m)) = q_done s.
+  Proof.
+    unfold RemuxRtmp2Rtp.remux. destruct (rm_type m =? type_audio).
+    - pose proof (get_audio_packer_done s) as Hd.
+      destruct (get_audio_packer opus_fixed s) as [s1 [[[k r] sq]|]]; cbn [fst] in Hd; [|split; [constructor|exact Hd]].
+      destruct (rtp_pack _ _ _ _ _ _) as [pk sq']. cbn [fst snd set_apacker q_done]. split; [|exact Hd].
+      apply Forall_map. apply Forall_forall. intros; exact I.
+    - destruct (rm_type m =? type_video); [|split; [constructor|reflexivity]].
+      pose proof (get_video_packer_done s) as Hd.
+      destruct (get_video_packer s) as [s1 [[cc sq]|]]; cbn [fst] in Hd; [|split; [constructor|exact Hd]].
+      destruct (rtp_pack _ _ _ _ _ _) as [pk sq']. cbn [fst snd set_vpacker q_done]. split; [|exact Hd].
+      apply Forall_map. apply Forall_forall. intros; exact I.
+  Qed.
+
+  Lemma remux_all_only_rtp : forall ms s,
+    Forall is_rtp (snd (remux_all opus_fixed s ms)) /\ q_done (fst (remux_all opus_fixed s ms)) = q_done s.
+  Proof.
+    induction ms as [|m t IH]; intros s; cbn [remux_all]; [split; [constructor|reflexivity]|].
+    destruct (remux_only_rtp s m) as [H1 H2]. destruct (RemuxRtmp2Rtp.remux opus_fixed s m) as [s1 o1]. cbn [fst snd] in *.
+    destruct (IH s1) as [H3 H4]. destruct (remux_all opus_fixed s1 t) as [s2 o2]. cbn [fst snd] in *.
+    split; [apply Forall_app; now split|now rewrite H4].
+  Qed.
+
+  Definition sdp_first (done_before done_after : bool) (outs : list rout) : Prop :=
+    if done_before then done_after = true /\ Forall is_rtp outs
+    else (outs = [] /\ done_after = false) \/ (exists r rest, outs = RSdp r :: rest /\ Forall is_rtp rest /\ done_after = true).
+
+  Lemma do_analyze_sdp_first s : q_done s = false ->
+    sdp_first false (q_done (fst (do_analyze b64_enc hex_enc tool opus_fixed s))) (snd (do_analyze b64_enc hex_enc tool opus_fixed s)).
+  Proof.
+    intros Hd. unfold do_analyze. destruct (negb (analyze_enough s)); [left; now split|].
+    destruct (q_asc s) as [asc|].
+    - destruct (asc_unpack asc) as [cx|e|p]; try (left; now split).
+      destruct (asc_sampling_frequency cx); try (left; now split).
+      set (s1 := mk_r2r _ _ _ _ _ _ _ _ _ _ _).
+      pose proof (remux_all_only_rtp (q_cache s1) s1) as [H1 _]. destruct (remux_all opus_fixed s1 (q_cache s1)) as [s2 outs].
+      right. eexists. eexists. cbn [fst snd q_done] in *. now repeat split.
+    - set (s1 := mk_r2r _ _ _ _ _ _ _ _ _ _ _).
+      pose proof (remux_all_only_rtp (q_cache s1) s1) as [H1 _]. destruct (remux_all opus_fixed s1 (q_cache s1)) as [s2 outs].
+      right. eexists. eexists. cbn [fst snd q_done] in *. now repeat split.
+  Qed.
+
+  Lemma feed_sdp_first s i :
+    sdp_first (q_done s) (q_done (fst (feed_rtmp_msg b64_enc hex_enc tool opus_fixed s i)))
+              (snd (feed_rtmp_msg b64_enc hex_enc tool opus_fixed s i)).
+  Proof.
+    unfold feed_rtmp_msg. destruct i as [ac rate|m].
+    - cbn [fst snd set_audio_guess q_done]. unfold sdp_first. destruct (q_done s); [split; [reflexivity|constructor]|left; now split].
+    - destruct (if rm_type m =? type_audio then _ else _).
+      { cbn [fst snd]. unfold sdp_first. destruct (q_done s); [split; [reflexivity|constructor]|left; now split]. }
+      set (s0 := if (rm_type m =? type_audio) && (q_apt s =? pt_unknown)%Z then _ else s).
+      assert (Hs0 : q_done s0 = q_done s).
+      { subst s0. destruct ((rm_type m =? type_audio) && (q_apt s =? pt_unknown)%Z); [|reflexivity].
+        destruct (audio_codec_id m =? sound_g711u); [reflexivity|]. destruct (audio_codec_id m =? sound_g711a); [reflexivity|].
+        destruct (audio_codec_id m =? sound_opus); reflexivity. }
+      rewrite <- Hs0. destruct (q_done s0) eqn:Ed; cbn [negb].
+      + destruct (_ || _); [cbn [fst snd]; split; [exact Ed|constructor]|].
+        destruct (remux_only_rtp s0 m) as [H1 H2]. split; [now rewrite H2|exact H1].
+      + destruct (is_avc_key_seq_header m).
+        { destruct (avc_parse_seq_header (rm_payload m)) as [[sp pq]|e|p]; apply do_analyze_sdp_first; exact Ed. }
+        destruct (is_hevc_key_seq_header m).
+        { destruct (is_ext_header m).
+          - destruct (hevc_parse_enhanced_seq_header (rm_payload m)) as [[[v sp] q]|e|p]; apply do_analyze_sdp_first; exact Ed.
+          - destruct (hevc_parse_seq_header (rm_payload m)) as [[[v sp] q]|e|p]; apply do_analyze_sdp_first; exact Ed. }
+        destruct (is_aac_seq_header m); apply do_analyze_sdp_first; exact Ed.
+  Qed.
+
+  (* the whole run: nothing, or the SDP followed by RTP packets only *)
+  Theorem rtsp_sdp_first : forall l s,
+    sdp_first (q_done s) (q_done (fst (feed_all_msgs b64_enc hex_enc tool opus_fixed s l)))
+              (snd (feed_all_msgs b64_enc hex_enc tool opus_fixed s l)).
+  Proof.
+    induction l as [|i t IH]; intros s; cbn [feed_all_msgs].
+    - cbn [fst snd]. unfold sdp_first. destruct (q_done s); [split; [reflexivity|constructor]|left; now split].
+    - pose proof (feed_sdp_first s i) as H1. destruct (feed_rtmp_msg b64_enc hex_enc tool opus_fixed s i) as [s1 o1]. cbn [fst snd] in H1.
+      specialize (IH s1). destruct (feed_all_msgs b64_enc hex_enc tool opus_fixed s1 t) as [s2 o2]. cbn [fst snd] in *.
+      unfold sdp_first in *. destruct (q_done s).
+      + destruct H1 as [D1 R1]. rewrite D1 in IH. destruct IH as [D2 R2]. split; [exact D2|apply Forall_app; now split].
+      + destruct H1 as [[-> D1]|(r & rest & -> & R1 & D1)]; rewrite D1 in IH.
+        * exact IH.
+        * destruct IH as [D2 R2]. right. exists r, (rest ++ o2). repeat split; [|exact D2]. apply Forall_app; now split.
+  Qed.
+End Codecs2.
